@@ -597,7 +597,7 @@ Proof.
   assert (Hc : forall l, (let '(osy0, c) := new_syncer w l d (s_disc st) in
               (osy0, {| s_latest := s_latest st; s_store := s_store st;
                         s_syncer := match osy0 with Some _ => osy0 | None => s_syncer st end;
-                        s_cache := s_cache st; s_disc := c |})) = (osy, st1) ->
+                        s_cache := s_cache st; s_disc := c; s_slots := s_slots st; s_max := s_max st |})) = (osy, st1) ->
           s_latest st1 = s_latest st /\ s_store st1 = s_store st /\ s_cache st1 = s_cache st /\
           (forall sy, osy = Some sy -> s_syncer st1 = Some sy) /\ (osy = None -> s_syncer st1 = s_syncer st)).
   { intros l Hl. destruct (new_syncer w l d (s_disc st)) as [o c]. inversion Hl; subst. simpl.
@@ -610,6 +610,40 @@ Proof.
   - destruct (list_nat_eqb (sort (sy_addrs sy)) (sort addrs)); [|apply (Hc (sort addrs)); exact H].
     inversion H; subst. repeat split; auto; intros; try congruence; try discriminate.
 Qed.
+
+Lemma afh_fields : forall fx st,
+  s_latest (after_failed_handle fx st) = s_latest st /\ s_store (after_failed_handle fx st) = s_store st /\
+  s_cache (after_failed_handle fx st) = s_cache st /\ s_syncer (after_failed_handle fx st) = s_syncer st /\
+  s_max (after_failed_handle fx st) = s_max st.
+Proof. intros fx st. unfold after_failed_handle. destruct (fx_slot fx); simpl; repeat split. Qed.
+
+Lemma afh_fixed : forall st, after_failed_handle fx_fixed st = st.
+Proof. reflexivity. Qed.
+
+Lemma make_syncer_slots : forall w st addrs d osy st1,
+  make_syncer w st addrs d = (osy, st1) -> s_slots st1 = s_slots st /\ s_max st1 = s_max st.
+Proof.
+  intros w st addrs d osy st1 H. unfold make_syncer in H.
+  assert (Hc : forall l, (let '(osy0, c) := new_syncer w l d (s_disc st) in
+              (osy0, {| s_latest := s_latest st; s_store := s_store st;
+                        s_syncer := match osy0 with Some _ => osy0 | None => s_syncer st end;
+                        s_cache := s_cache st; s_disc := c; s_slots := s_slots st; s_max := s_max st |})) = (osy, st1) ->
+          s_slots st1 = s_slots st /\ s_max st1 = s_max st).
+  { intros l Hl. destruct (new_syncer w l d (s_disc st)) as [o c]. inversion Hl; subst. simpl. auto. }
+  destruct (s_syncer st) as [sy|]; [|apply (Hc addrs); exact H].
+  destruct (negb (length (sy_addrs sy) =? length addrs)); [apply (Hc addrs); exact H|].
+  destruct (length addrs <=? 1).
+  - destruct (list_nat_eqb (sy_addrs sy) addrs); [|apply (Hc addrs); exact H]. inversion H; subst. auto.
+  - destruct (list_nat_eqb (sort (sy_addrs sy)) (sort addrs)); [|apply (Hc (sort addrs)); exact H]. inversion H; subst. auto.
+Qed.
+
+Lemma blocked_free : forall st c, s_slots st = 0 -> blocked (set_cache st c) = false.
+Proof.
+  intros st c H. unfold blocked. simpl. rewrite H.
+  destruct (s_max st); reflexivity.
+Qed.
+
+Local Arguments blocked : simpl never.
 
 (* ---------------------------------------------------------------------------------- *)
 (* Per-step theorems: a failed sync changes nothing durable                             *)
@@ -629,10 +663,12 @@ Proof.
     destruct (s_latest st1 =? op_head o); simpl; [discriminate|].
     destruct (h_ok _); simpl; [discriminate | intros; exact Hl].
   - unfold sync_announce. destruct (mem (op_head o) (s_cache st)); simpl; [discriminate|].
+    destruct (blocked _); simpl; [discriminate|].
     destruct (s_latest st =? op_head o); simpl; [discriminate|].
     destruct (make_syncer w _ (op_addrs o) (op_discfail o)) as [[sy|] st1] eqn:Hm;
       destruct (make_syncer_frame _ _ _ _ _ _ Hm) as [Hl _]; simpl in Hl.
-    + destruct (h_ok _); simpl; [discriminate | intros; exact Hl].
+    + destruct (h_ok _); simpl; [discriminate|]. intros _.
+      rewrite (proj1 (afh_fields fx _)). simpl. exact Hl.
     + destruct (fx_announce fx); simpl; intros; exact Hl.
 Qed.
 
@@ -647,6 +683,7 @@ Proof.
     destruct (s_latest st1 =? op_head o); simpl; [discriminate|].
     destruct (h_ok _); simpl; [discriminate | tauto].
   - unfold sync_announce. destruct (mem (op_head o) (s_cache st)); simpl; [discriminate|].
+    destruct (blocked _); simpl; [discriminate|].
     destruct (s_latest st =? op_head o); simpl; [discriminate|].
     destruct (make_syncer w _ (op_addrs o) (op_discfail o)) as [[sy|] st1].
     + destruct (h_ok _); simpl; [discriminate|]. intros _ [H|[]]. discriminate.
@@ -665,6 +702,7 @@ Proof.
     destruct (s_latest st1 =? op_head o); simpl; [tauto|].
     destruct (h_ok _); simpl; [|tauto]. intros [H|[]]. inversion H; subst. auto.
   - unfold sync_announce. destruct (mem (op_head o) (s_cache st)); simpl; [tauto|].
+    destruct (blocked _); simpl; [tauto|].
     destruct (s_latest st =? op_head o); simpl; [tauto|].
     destruct (make_syncer w _ (op_addrs o) (op_discfail o)) as [[sy|] st1].
     + destruct (h_ok _); simpl; intros [H|[]]; inversion H; subst; auto.
@@ -685,6 +723,8 @@ Proof.
   intros fx w seg o st Hfx Hm. unfold step. rewrite Hm. unfold sync_announce.
   destruct (mem (op_head o) (s_cache st)); simpl;
     [split; [discriminate | split; [intros; discriminate | intros; split; reflexivity]]|].
+  destruct (blocked _); simpl;
+    [split; [discriminate | split; [intros; discriminate | intros; split; reflexivity]]|].
   destruct (s_latest st =? op_head o); simpl;
     [split; [discriminate | split; [intros; discriminate | intros; split; reflexivity]]|].
   destruct (make_syncer w _ (op_addrs o) (op_discfail o)) as [[sy|] st1] eqn:Hms;
@@ -694,7 +734,9 @@ Proof.
     destruct ok; simpl.
     + split; [discriminate | split; [intros; discriminate|]]. intros _ Hne. exfalso. apply Hne. reflexivity.
     + rewrite (H0 eq_refl). split; [discriminate | split; [|intros; discriminate]].
-      intros _. split; [reflexivity | split; [reflexivity | apply In_remove]].
+      intros _. split; [reflexivity | split; [reflexivity|]].
+      destruct (afh_fields fx (with_sync st1 sy' store' (s_latest st1) (remove (op_head o) (s_cache st1)))) as [_ [_ [Hc' _]]].
+      rewrite Hc'. simpl. apply In_remove.
   - rewrite Hfx. simpl. split; [discriminate | split; [|intros; discriminate]].
     intros _. split; [reflexivity | split; [reflexivity | apply In_remove]].
 Qed.
@@ -724,12 +766,13 @@ Proof.
       (destruct (H6 p Hp) as [|[_ [a [np Hi]]]]; [left; assumption | right; exists a, np; apply -> in_rev; exact Hi]).
   - unfold sync_announce. destruct (mem (op_head o) (s_cache st)); simpl;
       [split; [intros p Hp; exact Hp | intros p Hp; left; exact Hp]|].
+    destruct (blocked _); simpl; [split; [intros p Hp; exact Hp | intros p Hp; left; exact Hp]|].
     destruct (s_latest st =? op_head o); simpl; [split; [intros p Hp; exact Hp | intros p Hp; left; exact Hp]|].
     destruct (make_syncer w _ (op_addrs o) (op_discfail o)) as [[sy|] st1] eqn:Hm;
       destruct (make_syncer_frame _ _ _ _ _ _ Hm) as [_ [Hs _]]; simpl in Hs.
     + destruct (handle fx w seg (op_head o) (s_latest st1) (op_hookfail o) sy (net0 o) (s_store st1)) as [ok cnt hk sy' n' store'] eqn:Hh.
       destruct (handle_store _ _ _ _ _ _ _ _ _ _ Hh) as [_ [H5 [H6 _]]]. simpl in *. rewrite Hs in *.
-      destruct ok; simpl; (split; [exact H5|]); intros p Hp;
+      destruct ok; simpl; rewrite ?(proj1 (proj2 (afh_fields fx _))); simpl; (split; [exact H5|]); intros p Hp;
         (destruct (H6 p Hp) as [|[_ [a [np Hi]]]]; [left; assumption | right; exists a, np; apply -> in_rev; exact Hi]).
     + destruct (fx_announce fx); simpl; rewrite Hs; (split; [intros p Hp; exact Hp | intros p Hp; left; exact Hp]).
 Qed.
@@ -768,7 +811,7 @@ Record HInv (w : world) (S0 : list nat) (L0 h : nat) (st : sstate) : Prop := {
   hi_ca : forall x, In x (s_cache st) -> x = h /\ s_latest st = h
 }.
 
-Lemma hinv_init : forall w S0 L0 h, HInv w S0 L0 h (init S0 L0).
+Lemma hinv_init_max : forall w m S0 L0 h, HInv w S0 L0 h (init_max m S0 L0).
 Proof.
   intros. constructor; simpl.
   - intros sy H. discriminate.
@@ -777,6 +820,10 @@ Proof.
   - left. reflexivity.
   - intros x [].
 Qed.
+
+Lemma hinv_init : forall w S0 L0 h, HInv w S0 L0 h (init S0 L0).
+Proof. intros. apply hinv_init_max. Qed.
+
 
 Lemma new_syncer_ok : forall w l d c sy c',
   wf_world w -> (w_kind w <> KPlain -> forall a, In a l -> alive w a = true) ->
@@ -824,7 +871,7 @@ Proof.
           (let '(osy0, c) := new_syncer w l d (s_disc st) in
               (osy0, {| s_latest := s_latest st; s_store := s_store st;
                         s_syncer := match osy0 with Some _ => osy0 | None => s_syncer st end;
-                        s_cache := s_cache st; s_disc := c |})) = (Some sy, st1) ->
+                        s_cache := s_cache st; s_disc := c; s_slots := s_slots st; s_max := s_max st |})) = (Some sy, st1) ->
           SyOk w sy /\ (forall a, In a (sy_addrs sy) <-> In a addrs)).
   { intros l Hl Hn. destruct (new_syncer w l d (s_disc st)) as [o c] eqn:Hns. inversion Hn; subst.
     destruct (new_syncer_ok w l d (s_disc st) sy c Hw) as [Hok Ha]; auto.
@@ -852,7 +899,7 @@ Proof.
           exists sy st1, (let '(osy0, c) := new_syncer w l d (s_disc st) in
               (osy0, {| s_latest := s_latest st; s_store := s_store st;
                         s_syncer := match osy0 with Some _ => osy0 | None => s_syncer st end;
-                        s_cache := s_cache st; s_disc := c |})) = (Some sy, st1)).
+                        s_cache := s_cache st; s_disc := c; s_slots := s_slots st; s_max := s_max st |})) = (Some sy, st1)).
   { intros l Hl. unfold new_syncer. destruct l as [|a0 l]; [congruence|].
     destruct (w_kind w) eqn:Hk.
     - eauto.
@@ -895,7 +942,7 @@ Lemma HInv_handled : forall w S0 L0 h st sy' store' cache' (ok : bool),
   (ok = true -> sub (todo h (s_latest st)) store') ->
   (forall x, In x cache' -> x = h /\ ok = true) ->
   HInv w S0 L0 h {| s_latest := if ok then h else s_latest st; s_store := store';
-                    s_syncer := Some sy'; s_cache := cache'; s_disc := s_disc st |}.
+                    s_syncer := Some sy'; s_cache := cache'; s_disc := s_disc st; s_slots := s_slots st; s_max := s_max st |}.
 Proof.
   intros w S0 L0 h st sy' store' cache' ok [H1 H2 H3 H4 H5] Hne Hsy Hsub Hin Hall Hca.
   assert (HL : s_latest st = L0) by (destruct H4 as [H4|[H4 _]]; [exact H4 | congruence]).
@@ -909,11 +956,33 @@ Proof.
   - intros x Hx. destruct (Hca x Hx) as [Hxh Hok]. subst ok. split; [exact Hxh | reflexivity].
 Qed.
 
+(* the slot of the async-sync semaphore: whatever a sync does - fail at any point, succeed,
+   be dropped or skipped - the slots in use (and the limit) are afterwards what they were: a
+   failed sync gives its slot back.  For EVERY state and op. *)
+Lemma slot_returned_l : forall fx w seg o st,
+  fx_slot fx = true ->
+  s_slots (fst (step fx w seg o st)) = s_slots st /\ s_max (fst (step fx w seg o st)) = s_max st.
+Proof.
+  intros fx w seg o st Hfx. unfold step. destruct (op_mode o).
+  - unfold sync_explicit.
+    destruct (make_syncer w st (op_addrs o) (op_discfail o)) as [[sy|] st1] eqn:Hm;
+      destruct (make_syncer_slots _ _ _ _ _ _ Hm) as [H1 H2]; [|simpl; auto].
+    destruct (fetch fx w Head sy (net0 o)) as [[res sy1] n1]. destruct res; simpl; auto.
+    destruct (s_latest st1 =? op_head o); simpl; auto. destruct (h_ok _); simpl; auto.
+  - unfold sync_announce. destruct (mem (op_head o) (s_cache st)); simpl; auto.
+    destruct (blocked _); simpl; auto.
+    destruct (s_latest st =? op_head o); simpl; auto.
+    destruct (make_syncer w _ (op_addrs o) (op_discfail o)) as [[sy|] st1] eqn:Hm;
+      destruct (make_syncer_slots _ _ _ _ _ _ Hm) as [H1 H2]; simpl in H1, H2.
+    + destruct (h_ok _); simpl; auto. unfold after_failed_handle. rewrite Hfx. simpl. auto.
+    + destruct (fx_announce fx); simpl; auto.
+Qed.
+
 Lemma hinv_step : forall w seg S0 L0 h st o,
-  wf_world w -> HInv w S0 L0 h st -> wf_op w h o ->
+  wf_world w -> HInv w S0 L0 h st -> s_slots st = 0 -> wf_op w h o ->
   HInv w S0 L0 h (fst (step fx_fixed w seg o st)).
 Proof.
-  intros w seg S0 L0 h st o Hw Hinv [Hh Hal]. unfold step. destruct (op_mode o).
+  intros w seg S0 L0 h st o Hw Hinv Hsl [Hh Hal]. unfold step. destruct (op_mode o).
   - (* explicit *)
     unfold sync_explicit.
     destruct (make_syncer w st (op_addrs o) (op_discfail o)) as [[sy|] st1] eqn:Hm;
@@ -933,12 +1002,12 @@ Proof.
     pose proof (HInv_handled w S0 L0 h st sy' store' (s_cache st) ok Hinv El G1 G5) as HH.
     destruct ok; simpl; unfold with_sync; simpl.
     + replace (s_disc st1) with (s_disc st1) by reflexivity.
-      assert (HI : HInv w S0 L0 h {| s_latest := h; s_store := store'; s_syncer := Some sy'; s_cache := s_cache st; s_disc := s_disc st |}).
+      assert (HI : HInv w S0 L0 h {| s_latest := h; s_store := store'; s_syncer := Some sy'; s_cache := s_cache st; s_disc := s_disc st; s_slots := s_slots st; s_max := s_max st |}).
       { apply HH; auto.
         - intros p Hp. destruct (G6 p Hp) as [|[Hi _]]; auto.
         - intros x Hx. destruct (hi_ca _ _ _ _ _ Hinv x Hx) as [Hx1 Hx2]. congruence. }
       destruct HI as [I1 I2 I3 I4 I5]. constructor; simpl; assumption.
-    + assert (HI : HInv w S0 L0 h {| s_latest := s_latest st; s_store := store'; s_syncer := Some sy'; s_cache := s_cache st; s_disc := s_disc st |}).
+    + assert (HI : HInv w S0 L0 h {| s_latest := s_latest st; s_store := store'; s_syncer := Some sy'; s_cache := s_cache st; s_disc := s_disc st; s_slots := s_slots st; s_max := s_max st |}).
       { apply HH; auto.
         - intros p Hp. destruct (G6 p Hp) as [|[Hi _]]; auto.
         - intros x Hx. destruct (hi_ca _ _ _ _ _ Hinv x Hx) as [Hx1 Hx2]. congruence. }
@@ -946,6 +1015,7 @@ Proof.
   - (* announce *)
     unfold sync_announce. rewrite Hh.
     destruct (mem h (s_cache st)) eqn:Hmem; simpl; [exact Hinv|].
+    rewrite (blocked_free st (h :: s_cache st) Hsl).
     destruct (s_latest st =? h) eqn:El; simpl.
     { apply Nat.eqb_eq in El. destruct Hinv as [I1 I2 I3 I4 I5]. constructor; simpl; auto.
       intros x [Hx|Hx]; [subst; auto | apply I5; exact Hx]. }
@@ -959,14 +1029,14 @@ Proof.
       destruct (handle fx_fixed w seg h (s_latest st1) (op_hookfail o) sy (net0 o) (s_store st1)) as [ok cnt hk sy' n' store'] eqn:Hhd.
       destruct (handle_inv _ _ _ _ _ _ _ _ _ Hok Hhd) as [G1 [_ [_ [_ [G5 [G6 [G7 _]]]]]]]. simpl in *.
       rewrite Fl, Fs, Fc in *.
-      destruct ok; simpl; unfold with_sync; simpl.
-      * assert (HI : HInv w S0 L0 h {| s_latest := h; s_store := store'; s_syncer := Some sy'; s_cache := h :: s_cache st; s_disc := s_disc st |}).
+      destruct ok; simpl; unfold after_failed_handle, with_sync; simpl.
+      * assert (HI : HInv w S0 L0 h {| s_latest := h; s_store := store'; s_syncer := Some sy'; s_cache := h :: s_cache st; s_disc := s_disc st; s_slots := s_slots st; s_max := s_max st |}).
         { apply (HInv_handled w S0 L0 h st sy' store' (h :: s_cache st) true); auto.
           - intros p Hp. destruct (G6 p Hp) as [|[Hi _]]; auto.
           - intros x [Hx|Hx]; [subst; auto | exfalso; eapply Hnc; eauto]. }
         destruct HI as [I1 I2 I3 I4 I5]. constructor; simpl; assumption.
       * assert (HI : HInv w S0 L0 h {| s_latest := s_latest st; s_store := store'; s_syncer := Some sy';
-                                      s_cache := remove h (h :: s_cache st); s_disc := s_disc st |}).
+                                      s_cache := remove h (h :: s_cache st); s_disc := s_disc st; s_slots := s_slots st; s_max := s_max st |}).
         { apply (HInv_handled w S0 L0 h st sy' store' (remove h (h :: s_cache st)) false); auto.
           - intros p Hp. destruct (G6 p Hp) as [|[Hi _]]; auto.
           - intros x Hx. exfalso. pose proof (In_remove_sub _ _ _ Hx) as Hx'.
@@ -980,11 +1050,13 @@ Proof.
 Qed.
 
 Lemma hinv_run : forall w seg S0 L0 h ops st,
-  wf_world w -> HInv w S0 L0 h st -> Forall (wf_op w h) ops ->
-  HInv w S0 L0 h (run fx_fixed w seg ops st).
+  wf_world w -> HInv w S0 L0 h st -> s_slots st = 0 -> Forall (wf_op w h) ops ->
+  HInv w S0 L0 h (run fx_fixed w seg ops st) /\ s_slots (run fx_fixed w seg ops st) = 0.
 Proof.
-  intros w seg S0 L0 h ops. induction ops as [|o ops IH]; intros st Hw Hinv Hall; simpl; [exact Hinv|].
-  inversion Hall; subst. apply IH; auto. apply hinv_step; auto.
+  intros w seg S0 L0 h ops. induction ops as [|o ops IH]; intros st Hw Hinv Hsl Hall; simpl; [auto|].
+  inversion Hall; subst. apply IH; auto.
+  - apply hinv_step; auto.
+  - rewrite (proj1 (slot_returned_l fx_fixed w seg o st eq_refl)). exact Hsl.
 Qed.
 
 Lemma store_done : forall w S0 L0 h st,
@@ -1002,12 +1074,12 @@ Proof. intros r H. unfold clean, net0. simpl. auto. Qed.
 
 (* the fault-free retry, from any state the invariant allows *)
 Lemma retry_from_inv : forall w seg S0 L0 h st r,
-  wf_world w -> HInv w S0 L0 h st -> retry_ok w h r ->
+  wf_world w -> HInv w S0 L0 h st -> s_slots st = 0 -> retry_ok w h r ->
   let st' := fst (step fx_fixed w seg r st) in
   failed (o_res (snd (step fx_fixed w seg r st))) = false /\
   s_latest st' = h /\ (forall p, In p (s_store st') <-> In p S0 \/ In p (need h L0)).
 Proof.
-  intros w seg S0 L0 h st r Hw Hinv [[Hh Hal] [Hf [Hd [Hhf [a [Hia Haa]]]]]].
+  intros w seg S0 L0 h st r Hw Hinv Hsl [[Hh Hal] [Hf [Hd [Hhf [a [Hia Haa]]]]]].
   assert (Hne : op_addrs r <> []) by (intros E; rewrite E in Hia; destruct Hia).
   assert (Hds : w_kind w = KStream -> op_discfail r = false) by (intros; exact Hd).
   (* what the sync proper does, from a state whose latest-sync is not h *)
@@ -1045,6 +1117,7 @@ Proof.
     destruct (mem h (s_cache st)) eqn:Hmem; simpl.
     { apply mem_In in Hmem. destruct (hi_ca _ _ _ _ _ Hinv h Hmem) as [_ Hl]. split; [reflexivity|]. split; [exact Hl|].
       apply (store_done w S0 L0 h st Hinv Hl). }
+    rewrite (blocked_free st (h :: s_cache st) Hsl).
     destruct (s_latest st =? h) eqn:El; simpl.
     { apply Nat.eqb_eq in El. split; [reflexivity|]. split; [exact El | apply (store_done w S0 L0 h st Hinv El)]. }
     apply Nat.eqb_neq in El.
@@ -1059,7 +1132,24 @@ Qed.
 
 (* after ANY history of syncs of head h (any faults, any number of failed syncs, either
    mode), a fault-free sync of h ends with latest-sync = h and exactly the store that the
-   same sync yields on a fresh subscriber *)
+   same sync yields on a fresh subscriber; for any MaxAsyncConcurrency m (0 = none) *)
+Theorem retry_converges_max_l : forall w seg m S0 L0 h ops r,
+  wf_world w -> Forall (wf_op w h) ops -> retry_ok w h r ->
+  let st1 := fst (step fx_fixed w seg r (run fx_fixed w seg ops (init_max m S0 L0))) in
+  let st0 := fst (step fx_fixed w seg r (init_max m S0 L0)) in
+  failed (o_res (snd (step fx_fixed w seg r (run fx_fixed w seg ops (init_max m S0 L0))))) = false /\
+  s_latest st1 = h /\ s_latest st0 = h /\ (forall p, In p (s_store st1) <-> In p (s_store st0)) /\
+  s_slots st1 = 0.
+Proof.
+  intros w seg m S0 L0 h ops r Hw Hops Hr.
+  destruct (hinv_run w seg S0 L0 h ops (init_max m S0 L0) Hw (hinv_init_max w m S0 L0 h) eq_refl Hops) as [H1 H1s].
+  destruct (retry_from_inv w seg S0 L0 h _ r Hw H1 H1s Hr) as [A0 [A1 A2]].
+  destruct (retry_from_inv w seg S0 L0 h _ r Hw (hinv_init_max w m S0 L0 h) eq_refl Hr) as [_ [B1 B2]].
+  cbv zeta. split; [exact A0 | split; [exact A1 | split; [exact B1 | split]]].
+  - intros p. rewrite A2, B2. tauto.
+  - rewrite (proj1 (slot_returned_l fx_fixed w seg r _ eq_refl)). exact H1s.
+Qed.
+
 Theorem retry_converges_l : forall w seg S0 L0 h ops r,
   wf_world w -> Forall (wf_op w h) ops -> retry_ok w h r ->
   let st1 := fst (step fx_fixed w seg r (run fx_fixed w seg ops (init S0 L0))) in
@@ -1068,12 +1158,9 @@ Theorem retry_converges_l : forall w seg S0 L0 h ops r,
   s_latest st1 = h /\ s_latest st0 = h /\ (forall p, In p (s_store st1) <-> In p (s_store st0)).
 Proof.
   intros w seg S0 L0 h ops r Hw Hops Hr.
-  pose proof (hinv_run w seg S0 L0 h ops _ Hw (hinv_init w S0 L0 h) Hops) as H1.
-  destruct (retry_from_inv w seg S0 L0 h _ r Hw H1 Hr) as [A0 [A1 A2]].
-  destruct (retry_from_inv w seg S0 L0 h _ r Hw (hinv_init w S0 L0 h) Hr) as [_ [B1 B2]].
-  cbv zeta. split; [exact A0 | split; [exact A1 | split; [exact B1|]]]. intros p. rewrite A2, B2. tauto.
+  destruct (retry_converges_max_l w seg 0 S0 L0 h ops r Hw Hops Hr) as [A [B [C [D _]]]].
+  cbv zeta. auto.
 Qed.
-
 
 (* the invariant retry_converges rests on, as a statement of its own: whatever failed
    before, the syncer the subscriber keeps for the publisher still addresses it *)
@@ -1082,15 +1169,27 @@ Lemma reused_syncer_addresses_publisher_l : forall w seg S0 L0 h ops sy,
   s_syncer (run fx_fixed w seg ops (init S0 L0)) = Some sy -> SyOk w sy.
 Proof.
   intros w seg S0 L0 h ops sy Hw Hops H.
-  apply (hi_sy _ _ _ _ _ (hinv_run w seg S0 L0 h ops _ Hw (hinv_init w S0 L0 h) Hops)). exact H.
+  destruct (hinv_run w seg S0 L0 h ops (init S0 L0) Hw (hinv_init w S0 L0 h) eq_refl Hops) as [H1 _].
+  apply (hi_sy _ _ _ _ _ H1). exact H.
+Qed.
+
+(* the slots in use after any history: none *)
+Lemma no_slot_in_use_l : forall w seg m S0 L0 ops,
+  s_slots (run fx_fixed w seg ops (init_max m S0 L0)) = 0.
+Proof.
+  intros w seg m S0 L0 ops. assert (H : forall st, s_slots st = 0 -> s_slots (run fx_fixed w seg ops st) = 0).
+  { induction ops as [|o ops IH]; intros st Hs; simpl; [exact Hs|]. apply IH.
+    rewrite (proj1 (slot_returned_l fx_fixed w seg o st eq_refl)). exact Hs. }
+  apply H. reflexivity.
 Qed.
 
 (* ---------------------------------------------------------------------------------- *)
 (* Part 6: the code before the fixes (each fix is needed), and non-vacuity              *)
 
-Definition fx_without_nopath := {| fx_nopath := false; fx_rotate := true; fx_announce := true |}.
-Definition fx_without_rotate := {| fx_nopath := true; fx_rotate := false; fx_announce := true |}.
-Definition fx_without_announce := {| fx_nopath := true; fx_rotate := true; fx_announce := false |}.
+Definition fx_without_nopath := {| fx_nopath := false; fx_rotate := true; fx_announce := true; fx_slot := true |}.
+Definition fx_without_rotate := {| fx_nopath := true; fx_rotate := false; fx_announce := true; fx_slot := true |}.
+Definition fx_without_announce := {| fx_nopath := true; fx_rotate := true; fx_announce := false; fx_slot := true |}.
+Definition fx_slot_kept_on_failure := {| fx_nopath := true; fx_rotate := true; fx_announce := true; fx_slot := false |}.
 
 Definition op_e (addrs : list nat) (h : nat) (faults : list fault) : op :=
   {| op_mode := Explicit; op_addrs := addrs; op_head := h; op_faults := faults; op_discfail := false; op_hookfail := None |}.
@@ -1174,6 +1273,27 @@ Proof.
   cbv zeta. split; [apply wf_world_nolegacy|]. split; [wf_alive|].
   split; [split; [wf_alive|]; repeat split; try reflexivity; exists 0; split; [left|]; reflexivity|].
   vm_compute. repeat split. left. reflexivity.
+Qed.
+
+(* a variant that gives the slot back only after a successful sync (MaxAsyncConcurrency 1):
+   one failed announce-triggered sync - which itself looks right: one error event, CID
+   un-cached - and the healthy re-announcement never starts *)
+Lemma slot_kept_on_failure_refuted :
+  let w := w_plain [true] in
+  let o := op_a [0] 1 [FStatus 500] false in
+  let r := op_a [0] 1 [] false in
+  wf_world w /\ wf_op w 1 o /\ retry_ok w 1 r /\
+  o_events (snd (step fx_slot_kept_on_failure w 0 o (init_max 1 [] 0))) = [EvErr 1 0] /\
+  s_cache (fst (step fx_slot_kept_on_failure w 0 o (init_max 1 [] 0))) = [] /\
+  s_slots (fst (step fx_slot_kept_on_failure w 0 o (init_max 1 [] 0))) = 1 /\
+  o_res (snd (step fx_slot_kept_on_failure w 0 r (run fx_slot_kept_on_failure w 0 [o] (init_max 1 [] 0)))) = RAnnBlocked /\
+  o_events (snd (step fx_slot_kept_on_failure w 0 r (run fx_slot_kept_on_failure w 0 [o] (init_max 1 [] 0)))) = [] /\
+  s_latest (fst (step fx_slot_kept_on_failure w 0 r (run fx_slot_kept_on_failure w 0 [o] (init_max 1 [] 0)))) = 0 /\
+  s_latest (fst (step fx_fixed w 0 r (run fx_fixed w 0 [o] (init_max 1 [] 0)))) = 1.
+Proof.
+  cbv zeta. split; [apply wf_world_nolegacy|]. split; [wf_plain|].
+  split; [split; [wf_plain|]; repeat split; try reflexivity; exists 0; split; [left|]; reflexivity|].
+  vm_compute. repeat split.
 Qed.
 
 (* Non-vacuity: histories meeting the hypotheses of the theorems, on the repaired code *)
